@@ -133,6 +133,12 @@ where
                 .context("Failed to write to temp file")?;
         }
     }
+    // A write to a tokio file only hands the data to a background thread; wait for it to reach
+    // the file before the temp file is opened again and copied.
+    temp_file
+        .flush()
+        .await
+        .context("Failed to flush temp file")?;
     Ok((
         source_hasher.finalize().to_vec(),
         archive_chunks,
